@@ -374,6 +374,129 @@ func emptyRegion(r *hx.Rng, ft string, a, b fpoly) (string, fpoly, fpoly) {
 	}
 }
 
+func rotPoly(p fpoly, th, cx, cy float64, ft string) fpoly {
+	c, s := math.Cos(th), math.Sin(th)
+	q := make(fpoly, len(p))
+	for i, ct := range p {
+		q[i] = make(fcontour, len(ct))
+		for j, v := range ct {
+			x, y := v.x-cx, v.y-cy
+			q[i][j] = fpt{quant(cx+c*x-s*y, ft), quant(cy+s*x+c*y, ft)}
+		}
+	}
+	return q
+}
+
+// convexContour: n points on a circle / ellipse in angular order (a convex polygon).
+func convexContour(r *hx.Rng, cx, cy, rx, ry float64) fcontour {
+	n := r.Range(3, 7)
+	c := make(fcontour, n)
+	for i := range c {
+		a := (float64(i) + 0.1 + 0.8*rnd(r)) * 2 * math.Pi / float64(n)
+		c[i] = fpt{cx + rx*math.Cos(a), cy + ry*math.Sin(a)}
+	}
+	return c
+}
+
+func reverseSome(r *hx.Rng, p fpoly) fpoly {
+	for i := range p {
+		if r.Bool() {
+			c := p[i]
+			for a, b := 0, len(c)-1; a < b; a, b = a+1, b-1 {
+				c[a], c[b] = c[b], c[a]
+			}
+		}
+	}
+	return p
+}
+
+// disjointOverlap: operands whose regions are disjoint (or nested) although their bounding boxes OVERLAP, so that the
+// scan-beam sweep itself — not the bounding-box shortcut in front of it — has to produce the empty result:
+// convex polygons on both sides of a slanted line, general polygons on both sides of a slanted gap, interleaved combs, a
+// triangle in the notch of an L, a polygon inside the hole of a ring (Intersect: `EO.sepLine` certificate or the exact
+// `EO.noContact` judgement), and a polygon inside another one (Sub: `EO.containedIn`).  Everything is rotated by a
+// random angle and must pass the general-position test like every other call.
+func disjointOverlap(r *hx.Rng, ft string, a0, b0 fpoly) (string, fpoly, fpoly) {
+	th := (0.15 + 1.2*rnd(r)) * hx.Pick(r, []float64{1, -1})
+	var a, b fpoly
+	op := "i"
+	switch r.Intn(7) {
+	case 0, 1: // convex polygons on both sides of a slanted line (gap 0.4 … 1.4)
+		g := 0.2 + 0.5*rnd(r)
+		a = fpoly{convexContour(r, 8-g-2.5, 4+8*rnd(r), 2.5, 2+3*rnd(r))}
+		b = fpoly{convexContour(r, 8+g+2.5, 4+8*rnd(r), 2.5, 2+3*rnd(r))}
+		if r.Chance(1, 3) {
+			a = append(a, convexContour(r, 8-g-1.5, 13+rnd(r), 1.3, 1.3))
+		}
+	case 2: // the regular families squeezed to both sides of a slanted gap
+		sq := func(p fpoly, lo float64) fpoly {
+			q := make(fpoly, len(p))
+			for i, c := range p {
+				q[i] = make(fcontour, len(c))
+				for j, v := range c {
+					q[i][j] = fpt{lo + v.x*7.4/16, v.y}
+				}
+			}
+			return q
+		}
+		a, b = sq(a0, 0), sq(b0, 8.6)
+	case 3: // interleaved combs: teeth of A point right, teeth of B point left, between each other
+		k := r.Range(2, 4)
+		h := 12.0 / float64(2*k)
+		a = fpoly{{{2, 2}}}
+		ca := fcontour{{2, 2}}
+		for i := 0; i < k; i++ {
+			y := 2 + float64(2*i)*h
+			ca = append(ca, fpt{11, y + 0.1*rnd(r)}, fpt{11, y + h*0.6}, fpt{4, y + h*0.6 + 0.1*rnd(r)}, fpt{4, y + 2*h})
+		}
+		ca = append(ca, fpt{2, 2 + float64(2*k)*h})
+		a = fpoly{ca}
+		cb := fcontour{{14, 2 + h*0.8}}
+		for i := 0; i < k; i++ {
+			y := 2 + float64(2*i)*h + h
+			cb = append(cb, fpt{14, y + h*0.95}, fpt{5, y + h*0.75 + 0.1*rnd(r)}, fpt{5, y - 0.2*h + 0.1*rnd(r)}, fpt{12.5, y - 0.25*h})
+			if i+1 < k {
+				cb = append(cb, fpt{12.5, y + h*0.9})
+			}
+		}
+		cb = append(cb[:1], cb[2:]...)
+		b = fpoly{cb}
+	case 4: // a triangle in the notch of an L
+		a = fpoly{{{2, 2}, {14, 2.3}, {14.2, 6}, {6.5, 6.2}, {6.2, 14}, {2.2, 13.7}}}
+		cx, cy := 10+2*rnd(r), 10+2*rnd(r)
+		b = fpoly{{{cx - 2.5, cy - 2.3 + rnd(r)}, {cx + 2, cy - 1 + rnd(r)}, {cx - 1 + rnd(r), cy + 2.2}}}
+	case 5: // a polygon inside the hole of a ring (nested, not containing)
+		cx, cy := 8.0, 8.0
+		a = fpoly{convexContour(r, cx, cy, 7, 6.5), convexContour(r, cx, cy, 4.2, 4)}
+		b = fpoly{starContour(r, 3, cx, cy, 2.6)}
+	default: // a polygon inside another one: Sub must be empty
+		op = "s"
+		a = fpoly{starContour(r, 3, 8, 8, 2.8)}
+		b = fpoly{convexContour(r, 8, 8, 6+rnd(r), 5.5+rnd(r))}
+		if r.Chance(1, 3) { // the covering polygon has a far-away second contour
+			b = append(b, convexContour(r, 14.5, 14.5, 0.9, 0.9))
+		}
+	}
+	a, b = reverseSome(r, a), reverseSome(r, b)
+	if op == "i" && r.Bool() {
+		a, b = b, a
+	}
+	return op, rotPoly(a, th, 8, 8, ft), rotPoly(b, th, 8, 8, ft)
+}
+
+// abCrossings: number of proper crossings between an edge of A and an edge of B.
+func abCrossings(a, b fpoly) int {
+	n := 0
+	for _, s := range segments(a) {
+		for _, t := range segments(b) {
+			if _, ok := segIntersection(s, t); ok {
+				n++
+			}
+		}
+	}
+	return n
+}
+
 func sameFPoly(a, b fpoly) bool {
 	if len(a) != len(b) || len(a) == 0 {
 		return false
